@@ -310,6 +310,15 @@ Section WfExpr.
     - intros x inner Hx Hi. eapply IH; [|exact Hi]. unfold blen in *. lia.
   Qed.
 
+End WfExpr.
+
+Section FuelExpr.
+  Variable dbg : bool.
+  Variable e : OpDec.enc.
+  Variable unit_addr : option (N -> res N).
+  Variable cvt_addr : N -> option waddr.
+  Variable unit_ref : N -> res N.
+  Variable info_ref : N -> res dref.
   (* fuel: the callbacks terminate, the nesting depth is below the length *)
   Hypothesis Fur : forall x, unit_ref x <> OutOfFuel.
   Hypothesis Fir : forall x, info_ref x <> OutOfFuel.
@@ -359,7 +368,7 @@ Section WfExpr.
     - eapply Forall_impl; [|exact Hfa]. intros a [_ H]. exact H.
     - intros x Hx. apply IH. lia.
   Qed.
-End WfExpr.
+End FuelExpr.
 
 (* ------------------------------------------------------------------ expr_convert_sound on bytes *)
 
